@@ -136,17 +136,22 @@ def _mech_tags(seq, is_rev):
 
 
 def _one_extra_copy(a, b, present_in_both=True):
-    """the symptom of the recorded junction finding: the two multisets of rows differ by exactly one closed hysteresis that one
-    side has once more than the other (counted twice / moved from one pass into the other); anything else is a new violation"""
+    """the symptom of the recorded junction finding: the arrival of the deferred last reversal closes one hysteresis or a cascade
+    of nested ones, and each of them is booked once more on one side (counted twice in pass 2 / moved between the passes).  So
+    the two multisets of rows differ on ONE side only, by one extra copy of each of some distinct closed hystereses (which the
+    other side has as well, for the pass-2 monitors); anything else is a new violation"""
     from collections import Counter
     ca, cb = Counter(a), Counter(b)
-    extra = list((ca - cb).elements()) + list((cb - ca).elements())
-    if len(extra) != 1:
-        return False
-    row = extra[0]
-    if len(row) == 3 and not row[2]:
-        return False                      # a half hysteresis is never part of the recorded symptom
-    return (ca[row] > 0 and cb[row] > 0) if present_in_both else True
+    more_a, more_b = ca - cb, cb - ca
+    if bool(more_a) == bool(more_b):
+        return False                      # no difference at all, or rows missing on both sides
+    extra, small = (more_a, cb) if more_a else (more_b, ca)
+    for row, n in extra.items():
+        if n != 1 or (len(row) == 3 and not row[2]):
+            return False                  # the same hysteresis twice more, or a half hysteresis: not the recorded symptom
+        if present_in_both and small[row] == 0:
+            return False
+    return True
 
 
 def run_case(case, ctx):
